@@ -171,6 +171,7 @@ at the top of a condition. -/
 /-- for EVERY well-formed IR expression (constants, variables, parameters, `this`, class names, binary and unary
     operations, primitive and reference casts, comparisons with and without a zero/null operand, `Long.compare`,
     instance and static fields, array access/length/creation, invocations and `new` with any number of arguments,
+    compound conditions `(a) && (b)` / `(a) || (b)`,
     nested to any depth) the JLS parser consumes exactly the printed lexemes and returns the tree of the expression -/
 theorem print_parse (e : JExpr.DExpr) (h : JExpr.WF e) : JExpr.parse (JExpr.print e) = some (JExpr.toJava e) :=
   JExpr.print_parse_wf e h
